@@ -105,6 +105,8 @@ func genSplit(t *rapid.T) splitCase {
 		i := rapid.IntRange(0, len(c.Ranges)-1).Draw(t, "which")
 		c.Ranges[i].Mod = []int{math.MaxInt, math.MaxInt - 1, math.MaxInt/2 + 1}[uni(t, 3, "hugemod")]
 		// the sites it no longer takes stay without partition
+	case 5, 6: // a backwards range under an existing name: no site, nothing else changes
+		c.Ranges = addBackwards(t, c.Ranges, l)
 	case 1: // a range given twice
 		i := rapid.IntRange(0, len(c.Ranges)-1).Draw(t, "which")
 		c.Ranges = append(c.Ranges, c.Ranges[i])
@@ -125,6 +127,24 @@ func genSplit(t *rapid.T) splitCase {
 	c.NoEOL = rapid.IntRange(0, 3).Draw(t, "noeol") == 0
 	c.Plan = genPlan(t, c.Ali, "prov")
 	return c
+}
+
+// addBackwards inserts, after a range drawn among the existing ones and under its name, a BACKWARDS range
+// (end < start): any stride, starts up to and past the end of the alignment, ends down to -1 (text "1-0")
+func addBackwards(t *rapid.T, ranges []rng, l int) []rng {
+	i := rapid.IntRange(0, len(ranges)-1).Draw(t, "after")
+	r := ranges[i]
+	r.Start = rapid.IntRange(0, l+1).Draw(t, "bstart")
+	hi := r.Start - 1
+	if hi > l-1 {
+		hi = l - 1
+	}
+	r.End = rapid.IntRange(-1, hi).Draw(t, "bend")
+	r.Mod = []int{1, 2, 3, 3, 7, math.MaxInt}[uni(t, 6, "bmod")]
+	r.NewLine, r.Single = rapid.Bool().Draw(t, "bnl"), false
+	out := append([]rng{}, ranges[:i+1]...)
+	out = append(out, r)
+	return append(out, ranges[i+1:]...)
 }
 
 // partModel is the expected content of the partition set
@@ -148,15 +168,20 @@ func modelPartition(ranges []rng, l int) partModel {
 			m.Status = "outside"
 			return m
 		}
-		if r.Start > r.End {
-			m.Status = "empty-range"
-			return m
-		}
 		idx := -1
 		for i, n := range m.Names {
 			if n == r.Name {
 				idx = i
 			}
+		}
+		if r.Start > r.End {
+			// a backwards range addresses no site, whatever the stride and wherever it starts; whether it
+			// opens a partition of its own is left open (only judged when the name exists already)
+			if idx >= 0 {
+				continue
+			}
+			m.Status = "empty-range"
+			return m
 		}
 		if idx < 0 {
 			m.Names = append(m.Names, r.Name)
@@ -384,6 +409,9 @@ func checkSplit(c splitCase) (o pbt.Outcome, err error) {
 	hasMod := false
 	for _, r := range c.Ranges {
 		hasMod = hasMod || r.Mod > 1
+		if r.Start > r.End {
+			o.Class("split:with-a-backwards-range")
+		}
 	}
 	o.NonTrivial = !contiguous
 	switch {
@@ -665,6 +693,9 @@ func genHist(t *rapid.T) histCase {
 	// any order: a later AddRange may give earlier columns to an existing partition
 	for _, i := range gen.Perm(t, len(rs), "order") {
 		c.Ranges = append(c.Ranges, rs[i])
+	}
+	if uni(t, 5, "backwards") == 0 {
+		c.Ranges = addBackwards(t, c.Ranges, aliLen(c.Ali))
 	}
 	c.FromText = rapid.IntRange(0, len(c.Ranges)).Draw(t, "fromtext")
 	if uni(t, 3, "notext") == 0 {
